@@ -16,6 +16,7 @@ import (
 )
 
 var vacuityAudit bool
+var usedAssumedMu sync.Mutex
 
 var symRe = regexp.MustCompile(`\|[^|]+\|`)
 
@@ -107,11 +108,14 @@ func (o *Obligation) queryFor(pc, goal string) string {
 			}
 		}
 	}
+	// (queries of one function are built concurrently: the bookkeeping map is shared)
+	usedAssumedMu.Lock()
 	for i, a := range o.fe.root().axioms {
 		if used[i] {
 			o.fe.root().usedAssumed["axiom "+a.name] = true
 		}
 	}
+	usedAssumedMu.Unlock()
 	full := body + ax.String() + tail
 	return o.fe.eng.sorts.prelude(full) + full
 }
